@@ -1,4 +1,5 @@
 import SfVerif.Lemmas.Ring2
+import SfVerif.Lemmas.Ring3
 import SfVerif.Gen.Consts
 import SfVerif.Lemmas.GenFnsLogs
 import SfVerif.Lemmas.Frame2
@@ -148,6 +149,21 @@ example : (∀ op ∈ fuseLogs [.logreq 3, .logcopy 3 1, .root, .log 2 5, .init 
   intro op h
   simp [fuseLogs] at h
   rcases h with h | h | h | h | h <;> subst h <;> rfl
+
+/-- **a trap between the two halves of a log call** (the crash point the either-form theorem leaves
+    out): after any history of messages, a plan request for `n` bytes whose copy never happens
+    leaves the host reading the last `min(total + n, capacity)` bytes of everything logged so far
+    followed by the `n` bytes that already lay where the plan points (`reserved`, length `n`) —
+    every earlier byte still in order and evicted only as `n` more bytes would evict it; nothing
+    is reordered or torn, only the reserved slot is not yet the message's. -/
+theorem C05_trap_between_request_and_copy (msgs : List (List UInt8)) (n : Nat) :
+    let l := msgs.foldl (Logs.log LOG_CAPACITY) (Logs.init LOG_CAPACITY)
+    Logs.read LOG_CAPACITY (Logs.append LOG_CAPACITY l n).1 =
+        lastN LOG_CAPACITY (msgs.flatten ++ reserved LOG_CAPACITY l n) ∧
+      (reserved LOG_CAPACITY l n).length = n := by
+  intro l
+  refine ⟨?_, reserved_length _ _ _⟩
+  rw [read_after_request LOG_CAPACITY l n (C05_invariant msgs), C05_read_is_tail, lastN_lastN_append]
 
 /-- the wasm-only `finalize` export (not compiled natively; regenerated from provider/src/lib.rs) hands
     the host six words: the last four are the ring's read pointers in the order `read_ptrs` returns them — the two segments `C05_read_is_tail` speaks about -/
